@@ -80,7 +80,15 @@ func (oracleC03) Step(x *OCtx, t *Trans) []Violation {
 			case coinAmt(pb.Deposit).Sign() == 0:
 				out = append(out, viol("C03", "refund-only-when-allowed", kind, "zero-deposit", "refund succeeded with a zero deposit"))
 			default:
-				refundable := pb.DisabledTime.Add(t.Pre.Params.ArbitrationTimeLimit).Add(t.Pre.Params.ComplaintRetrospect)
+				// the disabling time is the harness's own record of when the binding became unavailable
+				disabledAt := pb.DisabledTime
+				if sec, ok := t.PreMon.Dis[bkey(a.Svc, a.Prov)]; ok {
+					disabledAt = T0.Add(timeSec(int(sec)))
+					if !disabledAt.Equal(pb.DisabledTime) {
+						x.Wit("C03:recorded-disabling-time-differs-from-observed")
+					}
+				}
+				refundable := disabledAt.Add(t.Pre.Params.ArbitrationTimeLimit).Add(t.Pre.Params.ComplaintRetrospect)
 				if t.Pre.S.BlockTime().Before(refundable) {
 					out = append(out, viol("C03", "refund-only-when-allowed", kind, "too-early",
 						fmt.Sprintf("refund succeeded at %s, refundable from %s", t.Pre.S.BlockTime(), refundable)))
